@@ -1697,6 +1697,10 @@ func getQuotedSymbol(expr *SexpPair) (*SexpSymbol, error) {
 func (gen *Generator) GenerateReturn(xs []Sexp) error {
 	n := len(xs)
 	if n == 0 {
+		// like the other forms with nothing in them: the value nil.
+		// (Generating nothing let the consumer of the form's value
+		// take an operand of the enclosing expression.)
+		gen.AddInstruction(PushInstr{SexpNull})
 		return nil
 	}
 
